@@ -12,7 +12,7 @@ CORRUPTIONS = ['none', 'drop-entry-unique', 'drop-entry-extern', 'drop-entry-emp
                'flip-byte', 'truncate-data-entry', 'alter-hash', 'alter-size-unique', 'alter-size-extern', 'status-to-extern', 'status-to-unique',
                'alter-path', 'remove-line', 'add-line', 'dup-line-other-hash', 'truncate-data-file', 'delete-data', 'delete-meta', 'garbage-meta',
                'delete-earlier-backup', 'traversal-entry-dotdot', 'traversal-entry-abs', 'traversal-manifest-rel', 'traversal-manifest-dotdot', 'traversal-manifest-add-dotdot', 'traversal-manifest-add-dotdot',
-               'hardlink-entry', 'drop-entry-earlier-unique']
+               'hardlink-entry', 'drop-entry-earlier-unique', 'extern-line-onto-own-path', 'dup-archive-entry', 'extern-line-onto-own-path']
 
 
 def apply_corruption(rng, w, kind, target_dir, group_dir):
@@ -60,6 +60,13 @@ def apply_corruption(rng, w, kind, target_dir, group_dir):
             ti.mode = 0o644
             return ms + [(ti, b'not in the manifest')]
         rc.rewrite_archive(target_dir, f); return True
+    if kind == 'dup-archive-entry' and uniq:
+        # a second regular entry for a path the archive already holds: the path would have to be created twice
+        p = rng.choice(uniq)['path']
+        def f(ms):
+            twin = [(m, d) for m, d in ms if '/' + m.name == p]
+            return ms + twin[:1]
+        rc.rewrite_archive(target_dir, f); return True
     if kind == 'flip-byte' and uniq:
         p = rng.choice(uniq)['path']
         rc.rewrite_archive(target_dir, lambda ms: [(m, (bytes([d[0] ^ 1]) + d[1:]) if ('/' + m.name == p and d) else d) for m, d in ms]); return True
@@ -100,6 +107,11 @@ def apply_corruption(rng, w, kind, target_dir, group_dir):
         recs.remove(rng.choice(recs)); r = True
     elif kind == 'add-line' and recs:
         r = dict(rng.choice(recs)); r['path'] = os.path.dirname(r['path']) + '/added-line'; recs.append(r)
+    elif kind == 'extern-line-onto-own-path' and len(uniq) >= 2:
+        # an extra extern record that sends the data of one stored file to the path of another stored file
+        a, b = rng.sample(uniq, 2)
+        r = dict(b); r['unique'] = False; r['path'] = a['path']
+        recs.insert(rng.choice([0, len(recs)]), r)
     elif kind == 'dup-line-other-hash' and uniq:
         r = dict(rng.choice(uniq)); r['hash'] = 'ef' * 64; recs.insert(0, r)
     elif kind == 'traversal-manifest-rel' and recs:
@@ -200,6 +212,39 @@ def one_storage(ctx, hid, seed, ncor):
     finally:
         w.cleanup()
     return out
+
+
+def truncated_tail(ctx):
+    """The data archive loses its last bytes, and what cannot be decoded any more lies behind the last regular file the
+    manifest lists (symbolic links only): the restore must report it, not stop quietly with fewer entries."""
+    import random as _r
+    n = 0
+    rng = _r.Random(ctx.seed * 17 + 5)
+    w = hist.World(ctx, 9900, rng, max_groups=2, max_per_group=2, nitems=2)
+    try:
+        with open(os.path.join(w.items[0], 'big'), 'wb') as f:
+            f.write(rng.randbytes(400000))
+        for k in range(400):
+            os.symlink('target-%d' % k, os.path.join(w.items[1], 'link-%03d' % k))
+        r = w.backup(advance=5)
+        assert r.rc == 0, r.errors()
+        g, b = store.group_name(w.now), store.backup_name(w.now)
+        src = os.path.join(w.root, g, b, 'data.tar.zst')
+        raw = open(src, 'rb').read()
+        for cut in ([1, 9] if ctx.tier == 'quick' else [1, 2, 5, 9, 40, 200]):
+            open(src, 'wb').write(raw[:-cut])
+            rdir = os.path.join(w.base, 'restored-cut%d' % cut)
+            rr = store.run_vsb(ctx, ['-c', w.cfg, 'restore', os.path.join(w.root, g, b), rdir])
+            links = sum(1 for _, _, fs in os.walk(rdir) for x in fs if x.startswith('link-')) if os.path.isdir(rdir) else 0
+            if rr.rc == 0:
+                ctx.violation('property', 'data.tar.zst cut short by %d byte(s): vsb restore exits 0 without any complaint, %d of 400 stored symbolic links restored' % (cut, links),
+                              {'case': {'scenario': 'truncated-tail', 'cut': cut}})
+            shutil.rmtree(rdir, ignore_errors=True)
+            n += 1
+        open(src, 'wb').write(raw)
+    finally:
+        w.cleanup()
+    return n
 
 
 def existing_target(ctx):
@@ -313,7 +358,7 @@ def check(ctx):
         'rule': 'storages from random histories; for each, the uncorrupted restore plus single corruptions (%s) of the target backup or its group, produced by re-encoding archives/manifests; '
                 'non-trivial = a corrupted case; distinct by (corruption, decoded group, target)' % ', '.join(CORRUPTIONS[1:]),
         'samples': [{'kind': cases[0]['kind'], 'target': cases[0]['request']['target'], 'rc': cases[0]['rc']}],
-        'correspondence': st, 'corruption_outcomes': kinds, 'existing_target_cases': existing_target(ctx),
+        'correspondence': st, 'corruption_outcomes': kinds, 'existing_target_cases': existing_target(ctx), 'truncated_tail_cases': truncated_tail(ctx),
         'disagreements_checked': st['cases'],
     })
     ctx.assumptions += ['restore runs as root (ownership applied); symlink-in-the-middle traversal is out of scope (as in the property)',
